@@ -365,7 +365,7 @@ func (this *Dataset) Search(ctx context.Context, query math.Vector, k uint) (ind
 		go this.searchPartitionsOnNode(ctx, nodeId, partitionIds, query, k, wg, resultCh, errorCh)
 	}
 
-	result := make(index.SearchResult, 0, int(k)*len(nodePartitions))
+	result := make(index.SearchResult, 0)
 	for i := 0; i < len(nodePartitions); i++ {
 		verifPause("dataset.search.collect")
 		select {
@@ -404,7 +404,7 @@ func (this *Dataset) SearchPartitions(ctx context.Context, partitionIds []uuid.U
 		go this.searchPartition(ctx, partition, query, k, wg, resultCh, errorCh)
 	}
 
-	result := make(index.SearchResult, 0, int(k)*len(partitions))
+	result := make(index.SearchResult, 0)
 	for i := 0; i < len(partitions); i++ {
 		verifPause("dataset.searchpartitions.collect")
 		select {
